@@ -1,6 +1,6 @@
 import Vflow.Model.Flow
 /-!
-# Model of `netflow/v9/decoder.go` (as it is after the F2 and F4 repairs)
+# Model of `netflow/v9/decoder.go` (as it is after the F2, F4 and the padding repairs)
 
 Differences from IPFIX: no enterprise numbers, no variable-length fields, option template lengths in
 octets (`/4`), the field is read *before* the element is looked up, `Int` length arithmetic, the
@@ -85,7 +85,18 @@ structure Ctx where
 /-- `int(setHeader.Length) - (ReadCount() - startCount)` -/
 def leftInt (ctx : Ctx) (r : Rd) : Int := (ctx.len : Int) - ((r.cnt : Int) - (ctx.start : Int))
 
-def contCond (ctx : Ctx) (r : Rd) : Bool := decide (leftInt ctx r > 4) && decide (r.rem.length > 4)
+/-- `TemplateRecord.minRecordLen` (padding repair): the length of the data records the template
+describes (scope specifiers, then field specifiers), at least 1 -/
+def minRecLen (tr : Template) : Nat :=
+  let n := ((tr.scope ++ tr.fields).map (·.len)).sum
+  if n < 1 then 1 else n
+
+/-- `minLen` of `decodeSet`: what is left of a flowset and is shorter than this is padding — 5 octets
+(the former `> 4`) for template flowsets and ids ≤ 255, the template's record length for data flowsets -/
+def minLeft (ctx : Ctx) : Nat := if ctx.setId > 255 then minRecLen ctx.tr else 5
+
+def contCond (ctx : Ctx) (r : Rd) : Bool :=
+  decide (leftInt ctx r ≥ (minLeft ctx : Int)) && decide (r.rem.length ≥ minLeft ctx)
 
 /-- the record loop of `decodeSet`; result: state and Go's `err` slot -/
 def setLoop (ctx : Ctx) : Nat → St → (St × Option Err)
